@@ -49,7 +49,7 @@ func errCodeOf(err error) int {
 		return 0
 	case errors.As(err, &ce):
 		return ce.code
-	case errors.Is(err, context.Canceled):
+	case isCtxErr(err):
 		return -1
 	}
 	return -99
@@ -90,7 +90,7 @@ func runParDo(c *Case) *Obs {
 	defer runtime.GOMAXPROCS(prev)
 
 	h := &hlog{}
-	ctx, cancel := context.WithCancel(context.Background())
+	ctx, cancel := zooContext(0)
 	defer cancel()
 
 	counts := make([]int32, n+1)
